@@ -1,8 +1,10 @@
+import re
 from .config import Config
 from .abbreviation.convert import AbbreviationAttribute, AbbreviationNode
 
 expression_start = '{'
 expression_end = '}'
+re_newline = re.compile(r'\r\n|\r|\n')
 
 class OutputStream:
     __slots__ = ('options', '_value', 'level', 'offset', 'line', 'column')
@@ -37,7 +39,9 @@ class OutputStream:
         # use `push_newline()` to maintain proper line/column state
         first = True
 
-        for line in value.splitlines():
+        # NB: `str.splitlines()` drops a trailing empty line and also breaks on form feeds,
+        # U+2028 etc., which are ordinary text here
+        for line in re_newline.split(value):
             if not first: self.push_newline(True)
             first = False
             self.push(line)
